@@ -59,6 +59,10 @@ type c14Spec struct {
 	Feeder    string  `json:"feeder"`  // tiles | sumdb
 	Schedules [][]int `json:"schedules"`
 	Fork      bool    `json:"fork"`
+	// Note: form of the checkpoints the log publishes: "" (minimal), "cosigned"
+	// (already carrying 90 signature lines of other witnesses: ~9 KiB), "ext"
+	// (70 KiB of extension lines). Both are legitimate notes.
+	Note string `json:"note"`
 	Scratch   string  `json:"scratch"`
 }
 
@@ -115,6 +119,7 @@ func c14Worker(args []string) int {
 		b, _ := json.Marshal(res)
 		fmt.Println(string(b))
 	}()
+	var bodyOf func(origin string, size int, b *uni.Branch) string
 	const N = 65537
 	u := uni.New(ev.Seed(), N, []int{0})
 	mainSrv := stublog.New(spec.Feeder, u.Main)
@@ -230,6 +235,15 @@ func c14Worker(args []string) int {
 		b, _ := io.ReadAll(resp.Body)
 		return resp.StatusCode, b
 	}
+	var extLines []string
+	if spec.Note == "ext" {
+		for i := 0; i < 140; i++ {
+			extLines = append(extLines, fmt.Sprintf("x%05d %s", i, strings.Repeat(string(rune('a'+i%26)), 504)))
+		}
+	}
+	bodyOf = func(origin string, size int, b *uni.Branch) string {
+		return uni.Body(origin, uint64(size), b.Root(size), extLines...)
+	}
 	publish := func(l *c14Log, size int, fork bool) {
 		b := u.Main
 		hashes := mainSrv.Hashes
@@ -237,7 +251,10 @@ func c14Worker(args []string) int {
 			b, hashes = u.Forks[0], forkSrv.Hashes
 			l.branch = "fork"
 		}
-		cp := u.Sign(uni.Body(l.origin, uint64(size), b.Root(size)), u.K1.Signer)
+		cp := u.Sign(bodyOf(l.origin, size, b), u.K1.Signer)
+		if spec.Note == "cosigned" {
+			cp = uni.AppendSigLines(cp, uni.JunkSigLines(90))
+		}
 		l.srv.Branch, l.srv.Hashes = b, hashes
 		l.srv.SetHead(size, cp)
 		l.srv.Answer = nil
@@ -280,7 +297,7 @@ func c14Worker(args []string) int {
 		if n, v := countValid(u.W1.CosigVerif, text, sigs); n != 1 || v != 1 {
 			prob("served-without-cosignature", "served checkpoint lacks exactly one valid witness cosignature")
 		}
-		want := uni.Body(l.origin, uint64(wantSize), wantBranch.Root(wantSize))
+		want := bodyOf(l.origin, wantSize, wantBranch)
 		if text != want {
 			var got uint64
 			fmt.Sscanf(strings.Split(text, "\n")[1], "%d", &got)
@@ -296,7 +313,7 @@ func c14Worker(args []string) int {
 	// up within the (much longer) safety deadline is a violation, so that a
 	// loaded machine cannot raise an alarm. The number of extra waits is reported.
 	await := func(addr string, l *c14Log, wantSize int, step int, what string, until time.Time) {
-		want := uni.Body(l.origin, uint64(wantSize), u.Main.Root(wantSize))
+		want := bodyOf(l.origin, wantSize, u.Main)
 		for time.Now().Before(until) {
 			code, body := get(addr, l.id)
 			if text, _, ok := uni.SplitNote(body); code == 200 && ok && text == want {
@@ -522,6 +539,12 @@ func c14(tier string) int {
 			jobs = append(jobs, job{c14Spec{Mode: mode, Storage: st, Feeder: "tiles", Schedules: all, Fork: true}, fmt.Sprintf("tiles/%s/%s", mode, st)})
 		}
 	}
+	// The same with checkpoints as large as real ones get: a log that publishes
+	// checkpoints already cosigned by 90 other witnesses (~9 KiB) and one that
+	// signs 70 KiB of extension lines.
+	for _, nf := range []string{"cosigned", "ext"} {
+		jobs = append(jobs, job{c14Spec{Mode: "running", Storage: "mem", Feeder: "tiles", Schedules: all, Fork: true, Note: nf}, "tiles/running/mem/" + nf})
+	}
 	// sumdb: its origin is fixed, so one log per Main instance: one process
 	// per schedule; quick tier runs a covering subset (every schedule of
 	// length maxLen that contains a tile-boundary size, plus one of each length).
@@ -547,6 +570,12 @@ func c14(tier string) int {
 			continue
 		}
 		jobs = append(jobs, job{c14Spec{Mode: mode, Storage: st, Feeder: "sumdb", Schedules: [][]int{s}, Fork: true}, fmt.Sprintf("sumdb/%s/%s/%v", mode, st, s)})
+	}
+	for i, nf := range []string{"cosigned", "ext"} {
+		if i < len(sumdbScheds) {
+			s := sumdbScheds[len(sumdbScheds)-1-i]
+			jobs = append(jobs, job{c14Spec{Mode: "running", Storage: "mem", Feeder: "sumdb", Schedules: [][]int{s}, Fork: true, Note: nf}, fmt.Sprintf("sumdb/running/mem/%v/%s", s, nf)})
+		}
 	}
 	run.Set("sumdb_schedules", len(sumdbScheds))
 	var mu sync.Mutex
@@ -578,13 +607,13 @@ func c14(tier string) int {
 			checks += int64(r.Checks)
 			run.Add("waits_beyond_the_expected_completion_event", int64(r.LateCatchUps))
 			steps += int64(r.Steps)
-			run.Hist("scenarios", j.spec.Feeder+"/"+j.spec.Mode+"/"+j.spec.Storage)
+			run.Hist("scenarios", j.spec.Feeder+"/"+j.spec.Mode+"/"+j.spec.Storage+map[bool]string{true: "/" + j.spec.Note}[j.spec.Note != ""])
 			for _, s := range j.spec.Schedules {
-				run.Distinct(fmt.Sprintf("%s/%s/%s/%v", j.spec.Feeder, j.spec.Mode, j.spec.Storage, s))
+				run.Distinct(fmt.Sprintf("%s/%s/%s/%v/%s", j.spec.Feeder, j.spec.Mode, j.spec.Storage, s, j.spec.Note))
 			}
 			for _, p := range r.Problems {
-				run.Report(fmt.Sprintf("%s feeder=%s mode=%s storage=%s", p.Signature, j.spec.Feeder, j.spec.Mode, j.spec.Storage), p.What,
-					map[string]any{"kind": "omniwitness-main", "feeder": j.spec.Feeder, "mode": j.spec.Mode, "storage": j.spec.Storage, "schedule": p.Schedule, "step": p.Step})
+				run.Report(fmt.Sprintf("%s feeder=%s mode=%s storage=%s%s", p.Signature, j.spec.Feeder, j.spec.Mode, j.spec.Storage, map[bool]string{true: " published-checkpoints=" + j.spec.Note}[j.spec.Note != ""]), p.What,
+					map[string]any{"kind": "omniwitness-main", "feeder": j.spec.Feeder, "mode": j.spec.Mode, "storage": j.spec.Storage, "schedule": p.Schedule, "step": p.Step, "note": j.spec.Note})
 			}
 		}(ji, j)
 	}
@@ -595,7 +624,7 @@ func c14(tier string) int {
 	run.Set("served_checkpoint_checks", checks)
 	run.Set("steps", steps)
 	run.Set("exhaustive", true)
-	run.Set("rule", fmt.Sprintf("omniwitness.Main is run for real (generated ConfigLogs, listener on 127.0.0.1:0, outbound HTTP answered by in-process stub log servers generated from a 65537-leaf tree) for ALL strictly increasing growth schedules of length <= %d over sizes %v followed by a fork step: feeder type tiles follows every schedule at once (one configured log per schedule) in {running: 400 ms polling, in-memory and SQLite} and {restart between every step: one feed cycle per start, SQLite file}; feeder type sumdb (its origin line is fixed, so one log per process) runs a covering subset in the quick tier and every schedule in the thorough tier. After each growth the service's HTTP GET checkpoint must be the log's head, cosigned, after 3 complete poll cycles (cycle completion observed at the stub, not timed) / after the single cycle of a restart (write-handle close observed by wrapping the persistence); after the fork step it must still be the last checkpoint of the witnessed history. distinct_nontrivial = distinct (feeder, mode, storage, schedule)", maxLen, c14Sizes))
+	run.Set("rule", fmt.Sprintf("omniwitness.Main is run for real (generated ConfigLogs, listener on 127.0.0.1:0, outbound HTTP answered by in-process stub log servers generated from a 65537-leaf tree) for ALL strictly increasing growth schedules of length <= %d over sizes %v followed by a fork step: feeder type tiles follows every schedule at once (one configured log per schedule) in {running: 400 ms polling, in-memory and SQLite} and {restart between every step: one feed cycle per start, SQLite file}; feeder type sumdb (its origin line is fixed, so one log per process) runs a covering subset in the quick tier and every schedule in the thorough tier. Both feeder types also follow logs whose checkpoints are large (already cosigned by 90 other witnesses, ~9 KiB; 70 KiB of extension lines). After each growth the service's HTTP GET checkpoint must be the log's head, cosigned, after 3 complete poll cycles (cycle completion observed at the stub, not timed) / after the single cycle of a restart (write-handle close observed by wrapping the persistence); after the fork step it must still be the last checkpoint of the witnessed history. distinct_nontrivial = distinct (feeder, mode, storage, schedule)", maxLen, c14Sizes))
 	run.Assumption("goroutine interleavings and timer races inside Main are not enumerated; the scenario space is. Safety deadlines (90 s / 40 s per step, >= 100x the normal latency) only end a broken build")
 	// Addressing leg: the schedules above stay below 65 538 leaves; the tile
 	// paths the sumdb feeder will ask for in larger trees (indices up to 10^9,
